@@ -20,6 +20,7 @@ import (
 	"fmt"
 	"math/rand"
 	"os"
+	"runtime"
 	"runtime/pprof"
 	"sort"
 	"strings"
@@ -404,8 +405,8 @@ func main() {
 					note("compactrange", e.CompactRange(a, b))
 				case "stats":
 					st := e.GetStats()
-					for k, v := range st { // consume the returned map
-						_, _ = k, v
+					for k, v := range st { // consume the returned map, values included
+						_ = k + fmt.Sprint(v)
 					}
 					_ = e.IsReadOnly()
 					if w := e.GetWAL(); w != nil { // what the replication manager does at start-up
@@ -414,8 +415,14 @@ func main() {
 				case "cstats":
 					st, err := e.GetCompactionStats()
 					note("cstats", err)
+					// a caller reads what it was handed, every element of every slice and map in it,
+					// now and a little later (statistics given to a caller are the caller's)
 					for k, v := range st {
-						_, _ = k, v
+						_ = k + fmt.Sprint(v)
+					}
+					runtime.Gosched()
+					for k, v := range st {
+						_ = k + fmt.Sprint(v)
 					}
 				case "regtx":
 					conn := fmt.Sprintf("conn-%d", r.Intn(4))
